@@ -916,6 +916,10 @@ fn reject_reserved_existing_file_identity(
 struct MtimeOutOfRange;
 
 fn mtime_from_metadata(metadata: &Metadata) -> Result<MillisSinceEpoch, MtimeOutOfRange> {
+    #[cfg(jj_vcs_jj_verif)]
+    if let Some(millis) = crate::verif::mtime(metadata) {
+        return Ok(MillisSinceEpoch(millis));
+    }
     let time = metadata
         .modified()
         .expect("File mtime not supported on this platform?");
